@@ -92,13 +92,13 @@ def _interesting_start(rng, ground):
     return kind, lat, lon
 
 
-def _gen_aircraft(rng, idx, T, used):
+def _gen_aircraft(rng, idx, T, used, fast=False):
     while True:
         icao = "%06X" % rng.randrange(1, 1 << 24)
         if icao not in used:
             used.add(icao)
             break
-    starts_ground = rng.random() < 0.3
+    starts_ground = rng.random() < 0.3 and not fast
     kind, lat, lon = _interesting_start(rng, starts_ground)
     hdg = rng.choice([0, 90, 180, 270, rng.uniform(0, 360), rng.uniform(0, 360)])
     legs = []
@@ -114,10 +114,12 @@ def _gen_aircraft(rng, idx, T, used):
         else:
             gs = rng.choice([90, 180, 250, 400, 480, 560, 590])
             turn = rng.choice([0, 0, 0, 0.5, -0.5, 1.5, -3, 3])
+            if fast:
+                gs, turn = rng.choice([560, 590]), 0
             vr = rng.choice([0, 0, 0, 1500, -1500, 3000, -2500])
             legs.append([dur, gs, turn, 0, None, vr])
         t += dur
-        if rng.random() < 0.25:
+        if rng.random() < 0.25 and not fast:
             ground = not ground
             if not ground:
                 legs.append([10, 150, 0, 0, 0.0, 2000])
@@ -164,7 +166,7 @@ def _noisy_frame(rng, addr):
     return R.frame_with_parity(head + mb, int(addr, 16))
 
 
-def gen_world(rw, rf, T, budget, base=None, tmode=None, n_clean=None):
+def gen_world(rw, rf, T, budget, base=None, tmode=None, n_clean=None, outage=False):
     """World + channel: returns dict(base, tmode, receiver, aircraft, noisy,
     msgs) with msgs = sorted [(t_rel, seq, 'a'|'c', hex, addr)]."""
     if base is None:
@@ -174,7 +176,7 @@ def gen_world(rw, rf, T, budget, base=None, tmode=None, n_clean=None):
     if n_clean is None:
         n_clean = rw.choice([1, 1, 2, 2, 3, 4, 6])
     used = set()
-    acs = [_gen_aircraft(rw, i, T, used) for i in range(n_clean)]
+    acs = [_gen_aircraft(rw, i, T, used, fast=outage and rw.random() < 0.7) for i in range(n_clean)]
     # receiver: near a ground-capable aircraft (within ~0.3 deg), placed on
     # either side of equator / antimeridian / Greenwich when the start is there
     rcv = None
@@ -196,13 +198,21 @@ def gen_world(rw, rf, T, budget, base=None, tmode=None, n_clean=None):
     for a in acs:
         tr = W.Traj(a["traj"])
         style = rw.choice(["fast", "fast", "medium", "sparse", "parity_runs"])
+        if outage:
+            style = rw.choice(["medium", "sparse"])
         p_loss = rf.choice([0.0, 0.0, 0.1, 0.3, 0.6])
         p_dup = rf.choice([0.0, 0.0, 0.05, 0.2])
         gaps = []
         for _ in range(rf.choice([0, 0, 1, 2, 3])):
             g0 = rf.uniform(0, T)
             gaps.append((g0, g0 + rf.choice(GAPS)))
-        a["faults"] = {"p_loss": p_loss, "p_dup": p_dup, "gaps": gaps, "style": style}
+        # position-only outage: the position squitters are lost for a long time
+        # while other messages keep the aircraft listed
+        pos_out = None
+        if outage or rf.random() < 0.1:
+            o0 = rf.uniform(0, T * 0.4)
+            pos_out = (o0, o0 + rf.choice([150, 179, 181, 200, 400] + ([700, 1000, 1300] if outage else [])))
+        a["faults"] = {"p_loss": p_loss, "p_dup": p_dup, "gaps": gaps, "style": style, "pos_outage": pos_out}
         ver = rw.choice([0, 1, 2, 2, None])
         t = rw.uniform(0, min(30, T / 3))
         odd = rw.random() < 0.5
@@ -232,7 +242,11 @@ def gen_world(rw, rf, T, budget, base=None, tmode=None, n_clean=None):
                 kind, hexm = "c", W.msg_commb(a, tr, tq, bits)
             lost = rf.random() < p_loss
             in_gap = any(g0 <= tq < g1 for g0, g1 in gaps)
-            if in_gap:
+            is_pos = kind == "a" and 5 <= (int(hexm[8:10], 16) >> 3) <= 22 and (int(hexm[8:10], 16) >> 3) != 19
+            if pos_out is not None and is_pos and pos_out[0] <= tq < pos_out[1]:
+                a.setdefault("n_posout", 0)
+                a["n_posout"] += 1
+            elif in_gap:
                 a.setdefault("n_gap", 0)
                 a["n_gap"] += 1
             elif lost:
@@ -277,7 +291,10 @@ def generate(run_seed, tier):
     rb = substream(run_seed, "batch")
     long_run = tier != "quick" and rw.random() < 0.3
     T = rw.choice([60, 120, 200, 300] + ([600, 900] if long_run else []))
-    wd = gen_world(rw, rf, T, 1500 if tier != "quick" else 700)
+    outage = rw.random() < 0.06   # long sparse run with a long position-only outage
+    if outage:
+        T = rw.choice([1200, 1800])
+    wd = gen_world(rw, rf, T, 1500 if tier != "quick" else 700, outage=outage)
     base, tmode, rcv, acs, noisy, msgs = wd["base"], wd["tmode"], wd["receiver"], wd["aircraft"], wd["noisy"], wd["msgs"]
     # batching into calls
     bstyle = rb.choice(["single", "single", "small", "small", "large", "all", "mixed"])
@@ -435,6 +452,7 @@ def execute(sc, keep_log=False):
         stats.c["fault.rf_loss"] += a.get("n_lost", 0)
         stats.c["fault.duplicate"] += a.get("n_dup", 0)
         stats.c["fault.silence_gap_msgs"] += a.get("n_gap", 0)
+        stats.c["fault.position_only_outage_msgs"] += a.get("n_posout", 0)
         if a.get("n_lost") or a.get("n_dup") or a.get("n_gap"):
             nontrivial = True
         stats.c["probe.start_" + a.get("start_kind", "?")] += 1
